@@ -233,6 +233,10 @@ def axioms_h(ctx):
                                         z3.Implies(z3.Length(a) == z3.Length(b), (ham_f(a, b) == 0) == (a == b))),
                          patterns=[ham_f(a, b)]),
                "lemma:ham basic (Lean) ham >= 0, symmetric, ham a b = 0 <-> a = b for equal lengths")
+    axioms(ctx, "lev-basic")
+    ctx.assume_global(z3.ForAll([a, b], z3.Implies(z3.Length(a) == z3.Length(b), lev_f(a, b) <= ham_f(a, b)),
+                                patterns=[ham_f(a, b)]),
+                      "lemma:lev_le_ham (Lean) for equal lengths the edit distance is at most the Hamming distance")
     c0 = hcommon_f(a, b, k)
     ctx.assume_global(z3.ForAll([a, b, k], z3.Implies(z3.And(z3.Length(a) == z3.Length(b), ham_f(a, b) <= k, k >= 0),
                                                z3.And(in_del(c0, a, k), in_del(c0, b, k))),
